@@ -40,11 +40,13 @@ def apply_mutant(d, m):
             f.write(t)
 
 
-def run_checks(d, props):
+def run_checks(d, props, slot=None):
     res = {}
+    env = dict(os.environ, VERIF_EVIDENCE_DIR=d + '.evidence')
+    if slot is not None:
+        env['VERIF_EXTRACT_SLOT'] = str(slot)
     for p in props:
-        r = subprocess.run([os.path.join(VERIF, 'check'), p, '--repo', d], stdout=subprocess.PIPE, stderr=subprocess.STDOUT, text=True,
-                           env=dict(os.environ, VERIF_EVIDENCE_DIR=d + '.evidence'))
+        r = subprocess.run([os.path.join(VERIF, 'check'), p, '--repo', d], stdout=subprocess.PIPE, stderr=subprocess.STDOUT, text=True, env=env)
         keys = []
         lines = r.stdout.splitlines()
         for i, l in enumerate(lines):
@@ -73,23 +75,48 @@ def cleanup(d):
     shutil.rmtree(d + '.evidence', ignore_errors=True)
 
 
+def parallel(jobs, fn, n):
+    """run fn(job, slot) for every job on n worker slots; yields results in job order"""
+    import concurrent.futures
+    import queue
+    slots = queue.Queue()
+    for k in range(n):
+        slots.put(k + 1)
+
+    def wrapped(j):
+        s = slots.get()
+        try:
+            return fn(j, s)
+        finally:
+            slots.put(s)
+    with concurrent.futures.ThreadPoolExecutor(max_workers=n) as ex:
+        for r in ex.map(wrapped, jobs):
+            yield r
+
+
 def main():
     args = sys.argv[1:]
     from selftest import mutants as M
+    nj = 1
+    if '-j' in args:
+        i = args.index('-j')
+        nj = int(args[i + 1])
+        del args[i:i + 2]
     if args and args[0] in ('--all-mutants', '--all-benign'):
         cat = M.MUTANTS if args[0] == '--all-mutants' else M.BENIGN
         only = args[1:] or None
         bad = 0
-        for m in cat:
-            if only and m['id'] not in only and m.get('prop') not in only:
-                continue
+        jobs = [m for m in cat if not (only and m['id'] not in only and m.get('prop') not in only)]
+
+        def one(m, slot):
             d = make_scratch()
             try:
                 apply_mutant(d, m)
                 props = ALL if args[0] == '--all-benign' else [m['prop']] + m.get('also', [])
-                res = run_checks(d, props)
+                return m, run_checks(d, props, slot if nj > 1 else None)
             finally:
                 cleanup(d)
+        for m, res in parallel(jobs, one, nj):
             if args[0] == '--all-mutants':
                 code, keys = res[m['prop']]
                 hit = code == 1 and any(m['expect'] in k for k in keys)
@@ -109,18 +136,24 @@ def main():
         only = args[1:] or None
         bad = 0
         items = sorted(os.listdir(root))
+        jobs = []
         for it in items:
             f = os.path.join(root, it, 'patch.diff') if seeded else os.path.join(root, it)
             if not os.path.isfile(f) or not f.endswith('.diff'):
                 continue
             if only and it not in only and it[:3] not in only:
                 continue
+            jobs.append((it, f))
+
+        def one(job, slot):
+            it, f = job
             d = make_scratch()
             try:
                 subprocess.check_call(['git', 'apply', '--unsafe-paths', '--directory', d, f], cwd='/')
-                res = run_checks(d, [it[:3]] if seeded else ALL)
+                return it, run_checks(d, [it[:3]] if seeded else ALL, slot if nj > 1 else None)
             finally:
                 cleanup(d)
+        for it, res in parallel(jobs, one, nj):
             if seeded:
                 code, keys = res[it[:3]]
                 print('%-10s %-4s %s  %s' % (it, it[:3], 'CAUGHT' if code == 1 else 'MISSED', keys[:2]))
